@@ -94,6 +94,67 @@ def protocol_event(rec):
         return ('refuted', r[1] + '; native replay', r[2] + ' | native: ' + wit['what'], wit)
     rec.run('protocol.event', funcs, 'P∞', backed)
 
+    # ---- wrappers forward the regimen unchanged (reduced mechanistic model, predictive models)
+    def wrappers(c):
+        def reduced():
+            m = pk_model(c, False)
+            r = c.ReducedMechanisticModel(m)
+            r.fix_parameters({m.parameters()[1]: 1.3})
+            return r, m
+
+        def predictive():
+            m = pk_model(c, False)
+            pm = c.PredictiveModel(m, [c.GaussianErrorModel()])
+            return pm, pm._mechanistic_model
+
+        def predictive_fixed():
+            m = pk_model(c, False)
+            pm = c.PredictiveModel(m, [c.GaussianErrorModel()])
+            pm.fix_parameters({pm.get_parameter_names()[1]: 1.3})
+            return pm, pm._mechanistic_model.mechanistic_model()
+
+        def population_predictive():
+            m = pk_model(c, False)
+            pm = c.PredictiveModel(m, [c.GaussianErrorModel()])
+            ppm = c.PopulationPredictiveModel(pm, c.PooledModel(n_dim=pm.n_parameters()))
+            return ppm, pm._mechanistic_model
+        return [('ReducedMechanisticModel', reduced), ('PredictiveModel', predictive), ('PredictiveModel with a fixed mechanistic parameter', predictive_fixed),
+                ('PopulationPredictiveModel', population_predictive)]
+
+    def forwarded(c, symbolic):
+        vals = dict(dose=S(dose), start=S(start), duration=S(dur), period=S(per), num=S(num)) if symbolic else dict(dose=2.0, start=1.5, duration=0.25, period=3.0, num=4)
+        for label, mk in wrappers(c):
+            for pat in [('period', 'num'), ('period',), (), ('num',)]:
+                w_, inner = mk()
+                kw = {k_: vals[k_] for k_ in ('dose', 'start', 'duration') + pat}
+                if symbolic:
+                    paths = explore(lambda: w_.set_dosing_regimen(**kw), [])
+                    if [r[0] for _, r, _ in paths] != ['ret']:
+                        return ('undecided', 'engine', '%s.set_dosing_regimen%s: %s' % (label, pat, [(r[0], str(r[1])[:80]) for _, r, _ in paths]))
+                    ev = ghostsim.protocol_events(inner.dosing_regimen())
+                    same = lambda a, b: sp.simplify(sym.w(a) - sym.w(b)) == 0
+                else:
+                    w_.set_dosing_regimen(**kw)
+                    ev = [(e.level(), e.start(), e.duration(), e.period(), e.multiplier()) for e in inner.dosing_regimen().events()]
+                    same = lambda a, b: abs(float(a) - float(b)) < 1e-12
+                want = (vals['dose'] / vals['duration'], vals['start'], vals['duration'], vals['period'] if 'period' in pat else 0, vals['num'] if ('period' in pat and 'num' in pat) else 0)
+                if ev is None or len(ev) != 1 or not all(same(a, b) for a, b in zip(ev[0], want)):
+                    return ('refuted', 'ghost solver', '%s.set_dosing_regimen(%s): the wrapped model holds the events %s, the arguments specify (level, start, duration, period, multiplier) = %s' % (
+                        label, ', '.join(('dose', 'start', 'duration') + pat), ev, want), {'what': '%s.set_dosing_regimen(%s) installs %s, expected %s' % (label, kw, ev, [want]), 'expected': str(want), 'observed': str(ev)})
+        return ('discharged', 'symbolic execution over the ghost solver + sympy', '4 wrappers x 4 argument patterns: the wrapped mechanistic model receives exactly the specified event')
+
+    def forwarded_backed():
+        r = forwarded(chi_sym, True)
+        if r[0] != 'refuted':
+            return r
+        from contracts import mech_native
+        n_ = forwarded(mech_native.real_chi(), False)
+        if n_[0] != 'refuted':
+            return ('undecided', r[1], r[2] + ' (not reproduced natively)')
+        return ('refuted', r[1] + '; native replay', r[2] + ' | native: ' + n_[3]['what'], n_[3])
+    rec.run('protocol.forwarded', ['chi._mechanistic_models.ReducedMechanisticModel.set_dosing_regimen', 'chi._predictive_models.PredictiveModel.set_dosing_regimen',
+                                   'chi._predictive_models.PopulationPredictiveModel.set_dosing_regimen'], 'P∞', forwarded_backed)
+
     def lemma():
         ok = sp.simplify((dose / dur) * dur - dose) == 0
         return ('discharged', 'sympy', 'level * duration = (dose / duration) * duration = dose for every scheduled event; cumulative input = sum of scheduled doses under the assumed pacing semantics') if ok \
